@@ -851,7 +851,10 @@ class PyFat(object):
         i = first_cluster
         visited = 0
         while True:
-            if i < min_data_cluster or i >= len(self.fat):
+            # The FAT is sector-rounded and usually has more entries than
+            # the volume has clusters; those entries address no cluster
+            if i < min_data_cluster or i >= len(self.fat) or \
+                    i > last_cluster:
                 raise PyFATException("Cluster chain points outside of the "
                                      "FAT, cannot access file")
             visited += 1
